@@ -11,7 +11,7 @@ from __future__ import annotations
 
 import numpy as np
 
-from harness.c05_lib import Host, attr_of, find_node, frac, get_init, ints, shape_tok, TP
+from harness.c05_lib import Host, attr_of, find_node, frac, get_init, ints, schema_values, shape_tok, TP
 
 F32 = "float32"
 
@@ -477,17 +477,19 @@ class DropoutFam(Family):
 class CastFam(Family):
     name = "cast"
     rule_keys = ("no_op_cast_rule", "cast_cast_rule")
-    TYPES = [TP.FLOAT, TP.FLOAT16, TP.DOUBLE, TP.INT32, TP.INT64, TP.BFLOAT16, TP.UINT8, TP.BOOL, TP.INT8]
+    TYPES = [TP.FLOAT, TP.FLOAT16, TP.DOUBLE, TP.INT32, TP.INT64, TP.INT64, TP.UINT64, TP.BFLOAT16, TP.UINT8, TP.BOOL, TP.INT8]
     NPN = {TP.FLOAT: F32, TP.FLOAT16: "float16", TP.DOUBLE: "float64", TP.INT32: "int32", TP.INT64: "int64",
-           TP.UINT8: "uint8", TP.BOOL: "bool", TP.INT8: "int8"}
+           TP.UINT8: "uint8", TP.BOOL: "bool", TP.INT8: "int8", TP.UINT64: "uint64"}
+    # magnitudes that sit just above a rounding tie of a narrower float format (double rounding shows only there)
+    BIG = [2 ** 60 + 2 ** 36 + 1, 2 ** 53 + 1, 2 ** 24 + 1, 2 ** 24 + 2 ** 16 + 1, 2 ** 30 + 2 ** 19 + 1, 2 ** 62 + 2 ** 38 + 1, 2049, 4097 + 4096]
 
     def gen(self, rng):
         src = rng.choice([t for t in self.TYPES if t != TP.BFLOAT16])
         if rng.random() < 0.45:
             to = src if rng.random() < 0.5 else rng.choice(self.TYPES)
             return {"fam": "cast", "kind": "noop", "src": src, "to": to, "typed": rng.random() > 0.1}
-        t2 = rng.choice([TP.FLOAT, TP.FLOAT, TP.FLOAT, TP.DOUBLE, TP.FLOAT16, TP.INT32])
-        t3 = rng.choice([TP.FLOAT16, TP.FLOAT16, TP.BFLOAT16, TP.FLOAT, TP.INT32, TP.DOUBLE])
+        t2 = rng.choice([TP.FLOAT, TP.FLOAT, TP.FLOAT, TP.DOUBLE, TP.DOUBLE, TP.FLOAT16, TP.INT32, TP.BFLOAT16])
+        t3 = rng.choice([TP.FLOAT16, TP.FLOAT16, TP.BFLOAT16, TP.FLOAT, TP.FLOAT, TP.INT32, TP.DOUBLE])
         return {"fam": "cast", "kind": "castcast", "src": src, "t2": t2, "t3": t3, "extra": rng.random() < 0.08}
 
     def corpus(self):
@@ -502,6 +504,14 @@ class CastFam(Family):
         gen = None
         if c.get("witness"):
             gen = lambda r: np.array([1 + 2.0 ** -11 + 2.0 ** -30, 1.0, -3.5], dtype=np.float64)
+        elif np_src in ("int64", "uint64", "int32"):
+            lim = np.iinfo(np_src).max
+            pool = [v for v in self.BIG if v <= lim]
+            def gen(r, pool=pool, np_src=np_src):
+                vals = [pool[r.randint(0, len(pool))] * (1 if (np_src.startswith("u") or r.random_sample() < 0.6) else -1) for _ in range(2)]
+                return np.array(vals + [int(r.randint(-9, 10)) if not np_src.startswith("u") else 7], dtype=np_src)
+        elif np_src == "float64":
+            gen = lambda r: np.array([1 + 2.0 ** -11 + 2.0 ** -30, float(2 ** 60 + 2 ** 36 + 2 ** 8), r.choice([-3.5, 0.1, 65519.0])], dtype=np.float64)
         hst.inp("x", np_src, [3], gen=gen)
         if c["kind"] == "noop":
             if not c["typed"]:
@@ -536,7 +546,10 @@ class CastFam(Family):
         return f"fire to={attr_of(n, 'to')}"
 
     def finding(self, c):
-        if c["kind"] == "castcast" and c["src"] not in (1, 10, 16, 2, 3, 4, 5, 9):
+        # exactly the region of the shipped table: second hop FLOAT -> FLOAT16/BFLOAT16 with a source type that is not exactly
+        # representable in FLOAT.  Any other (type2, type3) pair that fires is NOT covered by this finding.
+        if (c["kind"] == "castcast" and c["t2"] == TP.FLOAT and c["t3"] in (TP.FLOAT16, TP.BFLOAT16)
+                and c["src"] not in (1, 10, 16, 2, 3, 4, 5, 9)):
             return "C05-N7"
         return None
 
@@ -888,14 +901,20 @@ class SliceFam(Family):
         start = rng.choice([0, 0, 0, 0, 1, -dn])
         step = rng.choice([1, 1, 1, 1, 2, -1])
         return {"fam": "slice", "x": x if rng.random() > 0.07 else None, "run": bind(x, 3), "ax": ax, "st": start, "en": end, "sp": step,
-                "dyn": rng.choice(["", "", "", "", "st", "en", "ax", "sp"]), "out": rng.choice(["none", "infer", "infer"]),
+                "dyn": rng.choice(["", "", "", "", "st", "en", "ax", "sp", "all", "all"]), "out": rng.choice(["none", "infer", "infer"]),
                 "two": rng.random() < 0.07}
 
     def corpus(self):
         return [{"fam": "slice", "x": [2, 3], "run": [2, 3], "ax": 1, "st": 0, "en": 3, "sp": 1, "dyn": "", "out": "infer", "two": False},
                 {"fam": "slice", "x": ["N", 3], "run": [3, 3], "ax": 0, "st": 0, "en": self.I64MAX, "sp": 1, "dyn": "", "out": "none", "two": False}]
 
+    I64MIN = -9223372036854775808
+
     def vals(self, c):
+        if c["dyn"] == "all":
+            # starts / ends / steps are run-time inputs; the declared output shape equals the data shape, which is truthful
+            # for the identity slice *and* for a full reversal (the harness feeds both)
+            return {"st": [0], "en": [self.I64MAX], "ax": [c["ax"]], "sp": [1]}
         # `two`: two-element starts/ends/axes/steps (size != 1)
         if c["two"] and len(c["run"]) >= 2:
             return {"st": [c["st"], 0], "en": [c["en"], self.I64MAX], "ax": [c["ax"] % len(c["run"]), (c["ax"] + 1) % len(c["run"])], "sp": [c["sp"], 1]}
@@ -923,7 +942,18 @@ class SliceFam(Family):
         v = self.vals(c)
         names = []
         for k in ("st", "en", "ax", "sp"):
-            names.append(hst.const(k, np.array(v[k], dtype=np.int64), "input" if c["dyn"] == k else "init"))
+            dyn = c["dyn"] == k or (c["dyn"] == "all" and k != "ax")
+            names.append(hst.const(k, np.array(v[k], dtype=np.int64), "input" if dyn else "init"))
+        if c["dyn"] == "all":
+            # run-time operand values: identity or full reversal, drawn together per feed
+            state = {}
+            def pick(r, key):
+                if key == "st":
+                    state["rev"] = r.random_sample() < 0.6
+                rev = state.get("rev", False)
+                return np.array({"st": [-1 if rev else 0], "en": [self.I64MIN if rev else self.I64MAX], "sp": [-1 if rev else 1]}[key], dtype=np.int64)
+            for k in ("st", "en", "sp"):
+                hst.feeds[k] = (lambda r, k=k: pick(r, k))
         hst.node("Slice", ["x"] + names, ["y"])
         hst.out("y", F32, self.out_shape(c))
         return hst, [C.collapse_slice_rule, C.collapse_slice2_rule]
@@ -934,10 +964,10 @@ class SliceFam(Family):
     def line(self, c):
         v = self.vals(c)
         def tok(k):
-            if c["dyn"] == k:
+            if c["dyn"] == k or (c["dyn"] == "all" and k != "ax"):
                 return "n"
             return str(v[k][0]) if len(v[k]) == 1 else "o"
-        steps = "-" if c["dyn"] == "sp" else ints(v["sp"])
+        steps = "-" if c["dyn"] in ("sp", "all") else ints(v["sp"])
         return (f"slice12 data={shape_tok(c['x'])} out={shape_tok(self.out_shape(c))} st={tok('st')} en={tok('en')} ax={tok('ax')} "
                 f"sp={tok('sp')} steps={steps}")
 
@@ -966,8 +996,10 @@ class ScatterFam(Family):
         decl = list(data)
         if rng.random() < 0.12:
             decl[-1 if len(decl) > 1 else 0] = "N"
-        return {"fam": "scatter", "data": decl, "run": data, "idx": idx, "const": rng.random() > 0.08,
-                "red": rng.choice(["-", "-", "none", "add", "mul", "max"]), "upd_same": rng.random() > 0.06}
+        opset = rng.choice([13, 16, 18, 18, 21, 23])
+        reds = schema_values("ScatterND", "reduction", opset)        # none at 13; none/add/mul at 16; + max/min from 18
+        return {"fam": "scatter", "data": decl, "run": data, "idx": idx, "const": rng.random() > 0.08, "opset": opset,
+                "red": rng.choice(["-", "-"] + reds), "upd_same": rng.random() > 0.06}
 
     def corpus(self):
         return [{"fam": "scatter", "data": [3, 2], "run": [3, 2], "idx": [0, 1, 2], "const": True, "red": "add", "upd_same": True},   # N4
@@ -975,7 +1007,7 @@ class ScatterFam(Family):
 
     def build(self, c):
         C = rules_common()
-        hst = Host()
+        hst = Host(opset=c.get("opset", 18))
         hst.inp("d", F32, c["run"], decl_shape=c["data"])
         ushape_run = [len(c["idx"])] + c["run"][1:]
         udecl = list(c["data"]) if c["upd_same"] else None
@@ -1107,8 +1139,13 @@ class PadFam(Family):
             # pads given for spatial axes only, possibly with negative axis numbers
             axes = [a - rank if rng.random() < 0.4 else a for a in range(2, rank)]
             pads = pads[2:rank] + pads[rank + 2:]
-        return {"fam": "pad", "integer": integer, "nsp": nsp, "pads": pads, "axes": axes,
-                "mode": rng.choice([None, None, "constant", "constant", "reflect", "edge"]),
+        opset = rng.choice([13, 18, 18, 19, 21, 23])
+        if axes is not None and opset < 18:
+            opset = 18        # the `axes` input of Pad exists from opset 18
+        # the value space of `mode` comes from the installed schema at that opset (19+: also `wrap`)
+        modes = schema_values("Pad", "mode", opset)
+        return {"fam": "pad", "integer": integer, "nsp": nsp, "pads": pads, "axes": axes, "opset": opset,
+                "mode": rng.choice([None, None, "constant"] + modes),
                 "cv": rng.choice([None, None, 0, 0, 1, "dyn"]), "pads_dyn": rng.random() < 0.06,
                 "autopad": rng.choice(["NOTSET", "NOTSET", "NOTSET", None, "VALID", "SAME_UPPER"]),
                 "cpads": rng.choice([None, None, [rng.choice([0, 1]) for _ in range(2 * nsp)]]),
@@ -1124,7 +1161,7 @@ class PadFam(Family):
 
     def build(self, c):
         C = rules_common()
-        hst = Host()
+        hst = Host(opset=c.get("opset", 18))
         nsp = c["nsp"]
         xs = [1, 2] + [5, 4][:nsp]
         dt = "uint8" if c["integer"] else F32
@@ -1216,7 +1253,8 @@ class NormPadFam(Family):
         return {"fam": "normpad", "integer": rng.random() < 0.25, "nsp": nsp,
                 "x": [max(rng.choice([4, 5, 6, 7]), (kk - 1) * dd + 1) for kk, dd in zip(k, dil)],
                 "k": k, "s": [rng.choice([1, 1, 2, 3]) for _ in range(nsp)], "dil": dil,
-                "ap": rng.choice(["SAME_UPPER", "SAME_LOWER", "SAME_UPPER", "VALID", "NOTSET", None]),
+                "opset": rng.choice([13, 18, 18, 19, 21, 23]),
+                "ap": rng.choice(["SAME_UPPER", "SAME_LOWER", None] + schema_values("Conv", "auto_pad", 18)),
                 "kattr": rng.random() < 0.5, "sattr": rng.random() < 0.7, "out": rng.choice(["spec", "spec", "spec", "none", "sym"]),
                 "in_known": rng.random() > 0.07, "pads": None}
 
@@ -1238,7 +1276,7 @@ class NormPadFam(Family):
 
     def build(self, c):
         C = rules_common()
-        hst = Host()
+        hst = Host(opset=c.get("opset", 18))
         dt = "uint8" if c["integer"] else F32
         xs = [1, 2] + c["x"]
         hst.inp("x", dt, xs, decl_shape=xs if c["in_known"] else [1, 2] + ["H", "W"][: c["nsp"]])
